@@ -212,7 +212,7 @@ def _tvars_in_order(ty, acc=None):
 
 def universe_source(classes):
     tvars = sorted({p for c in classes for p in c["params"]})
-    lines = ["import collections.abc", "from dataclasses import dataclass", "from typing import Any, Generic, Iterable, TypeVar",
+    lines = ["import collections.abc", "import typing", "from dataclasses import dataclass", "from typing import Any, Generic, Iterable, TypeVar",
              "from func_adl import register_func_adl_os_collection",
              "from func_adl.type_based_replacement import ObjectStreamInternalMethods", ""]
     for v in tvars + ["CT"]:
@@ -242,6 +242,10 @@ def universe_source(classes):
                     and not m["ret"]["a"][0]["a"]:
                 # a forward reference INSIDE the generic: Iterable["Jet"]
                 ann = ' -> Iterable["' + m["ret"]["a"][0]["s"] + '"]'
+            if ann.startswith(" -> list["):
+                ann = " -> typing.List[" + ann[len(" -> list["):]
+            if ann.startswith(" -> Sequence["):
+                ann = " -> collections.abc.Sequence[" + ann[len(" -> Sequence["):]
             if m["name"] == "trks" and ann.startswith(" -> Iterable["):
                 # the same generic spelled through collections.abc (PEP 585), as newer code writes it
                 ann = " -> collections.abc." + ann[len(" -> "):]
